@@ -15,6 +15,10 @@ def build(repo, tier, seed):
     r10 = classlaws.run(repo, ("L10",))
     syn = syn + r10["syntactic"]
     und = und + r10["undecided"]
+    from . import factory, datasetclass_c19
+    f_syn, f_und = factory.obligations(repo)
+    syn = syn + [x for x in f_syn if "evaluates-nothing" in x["name"]]
+    und = und + f_und
     import hashlib
     hashes = {"labrea/*.py": hashlib.sha256("".join(m.source for _, m in sorted(repo.modules.items())).encode()).hexdigest()[:16]}
     fns = []
@@ -28,5 +32,5 @@ def build(repo, tier, seed):
                              "obligations are decided on the trace of EVERY path of the real evaluate()/construction method: they hold for all graphs, member counts and dictionaries"],
             "assumptions": ["children are used by contract: 'a body runs' is observed as the evaluate call on the child that owns it",
                             "validate/keys/explain of every class under contract (used during evaluation by coalesce and by cache fingerprints) run no body outside selector positions: law L10 per class",
-                            "construction-time: methods listed in contracts/lazy_c06.py CONSTRUCTORS + Dataset._composed/with_options; decorators (dataset, interface, implements, "
-                            "datasetclass, pipeline_step) and functions.py helpers are NOT yet under contract (no claim)"]}
+                            "construction-time: methods listed in contracts/lazy_c06.py CONSTRUCTORS + Dataset._composed/with_options; DatasetFactory.wrap (what @dataset finally calls) evaluates nothing (group DatasetFactory.wrap:C08); "
+                            "the other decorators (interface, implements, datasetclass, pipeline_step) and functions.py helpers are NOT under contract (no claim)"]}
